@@ -527,6 +527,22 @@ class DestHandler:
         self._fsm_advancement_after_packets_were_sent()
         pdu_holder = PduHolder(packet)
         if (
+            packet is not None
+            and pdu_holder.pdu_type == PduType.FILE_DIRECTIVE
+            and pdu_holder.pdu_directive_type == DirectiveType.EOF_PDU
+            and self.transmission_mode == TransmissionMode.ACKNOWLEDGED
+            and self.states.step
+            in [
+                TransactionStep.WAITING_FOR_MISSING_DATA,
+                TransactionStep.WAITING_FOR_FINISHED_ACK,
+            ]
+        ):
+            # CFDP 4.7.2: Every EOF PDU received must be acknowledged, also an EOF PDU which was
+            # sent again because the ACK PDU for the first one was lost. The procedures of the
+            # current step continue with the next state machine call.
+            self._prepare_eof_ack_packet()
+            return
+        if (
             self.states.step
             in [
                 TransactionStep.RECEIVING_FILE_DATA,
